@@ -268,7 +268,8 @@ def r19g(prog, rep, fns):
         what = 'trade confirmations' if 'BrokerTx' in rty else 'benefit entries'
         bad = None
         o = mir.provenance(f, c.args[1], follow_all_call_args=True)
-        fl = [y for y in o.calls if y.short in FILTERS and y.decl.startswith('std::')]
+        fl = [y for y in o.calls if y.short in (FILTERS - {'drain'}) and y.decl.startswith('std::')]
+        fl += [y for y in o.calls if y.short == 'drain' and not any('RangeFull' in f.ty.get(a, '') for a in y.arg_locals()[1:])]
         if fl:
             bad = 'the %s added pass through %s()' % (what, fl[0].short)
         for x in f.calls:
